@@ -330,6 +330,10 @@ const (
 
 var returnFactCache = map[*ssa.Return][]resultFact{}
 
+// NonNilWhen lists functions whose (error) result is non-nil whenever the named predicate on the same object holds:
+// frozen facts about the repository's own helper pairs, registered by the rules that rely on them.
+var NonNilWhen = map[string]string{}
+
 // returnFacts: per result of ret, a constant boolean, the nil constant, or "non-nil" when the returned value is one
 // that the callee itself tested against nil on the way to this return (if err != nil { return ..., err }).
 func returnFacts(ret *ssa.Return) []resultFact {
@@ -370,7 +374,9 @@ func returnFacts(ret *ssa.Return) []resultFact {
 				}
 			case *ssa.Alloc:
 			default:
-				fresh = false
+				if !IsErrorSentinel(o) {
+					fresh = false
+				}
 			}
 		}
 		if fresh && len(os) > 0 {
@@ -380,6 +386,41 @@ func returnFacts(ret *ssa.Return) []resultFact {
 		if !haveGuards {
 			WithoutInlining(func() { guards = GuardsOf(ret) })
 			haveGuards = true
+		}
+		// results that are non-nil whenever a sibling predicate holds (NonNilWhen), returned under that predicate
+		if len(os) > 0 {
+			all := true
+			for _, o := range os {
+				c, isCall := o.(*ssa.Call)
+				pred, listed := "", false
+				if isCall {
+					pred, listed = NonNilWhen[CalleeKey(c)]
+				}
+				if !listed {
+					all = false
+					break
+				}
+				held := false
+				for _, g := range guards {
+					cv, neg := StripNot(g.If.Cond)
+					if g.CondTrue() == neg {
+						continue
+					}
+					for _, oc := range OriginCalls(cv) {
+						if CalleeIs(oc, pred) {
+							held = true
+						}
+					}
+				}
+				if !held {
+					all = false
+					break
+				}
+			}
+			if all {
+				out[i] = factNonNil
+				continue
+			}
 		}
 		for _, g := range guards {
 			x, nilOnTrue, ok := NilTest(g.If.Cond)
@@ -1264,6 +1305,14 @@ func localAllocsOf(base ssa.Value) []*ssa.Alloc {
 		switch x := v.(type) {
 		case *ssa.Alloc:
 			allocs = append(allocs, x)
+			// a local that is (a copy of) another struct: the spilled value receiver / struct parameter of a helper
+			if _, isStruct := x.Type().Underlying().(*types.Pointer).Elem().Underlying().(*types.Struct); isStruct {
+				for _, r := range *x.Referrers() {
+					if st, ok := r.(*ssa.Store); ok && st.Addr == ssa.Value(x) {
+						find(st.Val, d+1)
+					}
+				}
+			}
 		case *ssa.UnOp:
 			if x.Op == token.MUL {
 				if a, ok := x.X.(*ssa.Alloc); ok {
